@@ -1392,13 +1392,14 @@ fn gen_env(r: &mut Rng, pts: &Points, it: u64) -> MEnv {
             i.seq = u32::MAX;
         }
     }
-    let npath = match r.below(9) {
-        0 | 1 => 0,
-        2 => 1,
-        3 => 2,
-        4 => 127,
-        5 => 128,
-        _ => r.range(3, 126),
+    let npath = match r.below(16) {
+        0 | 1 | 2 | 3 => 0,
+        4 | 5 => 1,
+        6 | 7 => 2,
+        8 => 127,
+        9 => 128,
+        10 => r.range(9, 126),
+        _ => r.range(3, 8),
     } as usize;
     MEnv {
         version: match r.below(5) {
@@ -1445,13 +1446,16 @@ fn gen_env(r: &mut Rng, pts: &Points, it: u64) -> MEnv {
 fn all_queries(r: &mut Rng, m: &MEnv) -> Vec<Vec<Query>> {
     let nin = m.inputs.len() as u32;
     let nout = m.outputs.len() as u32;
+    // four operations per environment: getters without argument, per-input, per-output, the rest
     let mut first: Vec<Query> = vec![];
-    let mut rest: Vec<Vec<Query>> = vec![];
+    let mut g_in: Vec<Query> = vec![];
+    let mut g_out: Vec<Query> = vec![];
+    let mut g_misc: Vec<Query> = vec![];
     for &(name, _, fam, _) in JETS {
         match fam {
             Fam::Nullary | Fam::Current | Fam::OracleOnly => first.push((name.to_string(), vec![])),
-            Fam::Input => rest.push(vec![(name.to_string(), (0..nin + 2).chain([u32::MAX, 1 << 31]).map(Arg::U32).collect())]),
-            Fam::Output => rest.push(vec![(name.to_string(), (0..nout + 2).chain([u32::MAX, 1 << 31]).map(Arg::U32).collect())]),
+            Fam::Input => g_in.push((name.to_string(), (0..nin + 2).chain([u32::MAX, 1 << 31]).map(Arg::U32).collect())),
+            Fam::Output => g_out.push((name.to_string(), (0..nout + 2).chain([u32::MAX, 1 << 31]).map(Arg::U32).collect())),
             Fam::NullDatum => {
                 let mut a = vec![];
                 for i in (0..nout + 1).chain([u32::MAX]) {
@@ -1460,7 +1464,7 @@ fn all_queries(r: &mut Rng, m: &MEnv) -> Vec<Vec<Query>> {
                         a.push(Arg::Pair(i, j));
                     }
                 }
-                rest.push(vec![(name.to_string(), a)]);
+                g_misc.push((name.to_string(), a));
             }
             Fam::Tappath => {
                 let n = m.path.len() as u32;
@@ -1468,7 +1472,7 @@ fn all_queries(r: &mut Rng, m: &MEnv) -> Vec<Vec<Query>> {
                 a.push(r.below(256) as u32);
                 a.sort();
                 a.dedup();
-                rest.push(vec![(name.to_string(), a.into_iter().filter(|x| *x < 256).map(|x| Arg::U8(x as u8)).collect())]);
+                g_misc.push((name.to_string(), a.into_iter().filter(|x| *x < 256).map(|x| Arg::U8(x as u8)).collect()));
             }
             Fam::TotalFee => {
                 let mut a: Vec<[u8; 32]> = vec![[0u8; 32], b32(r)];
@@ -1484,13 +1488,11 @@ fn all_queries(r: &mut Rng, m: &MEnv) -> Vec<Vec<Query>> {
                         }
                     }
                 }
-                rest.push(vec![(name.to_string(), a.into_iter().map(Arg::H).collect())]);
+                g_misc.push((name.to_string(), a.into_iter().map(Arg::H).collect()));
             }
         }
     }
-    let mut all = vec![first];
-    all.extend(rest);
-    all
+    vec![first, g_in, g_out, g_misc]
 }
 
 fn reach_kinds(ctx: &mut Ctx, m: &MEnv) {
@@ -1659,7 +1661,7 @@ pub fn run(ctx: &mut Ctx) {
     f3.outputs[0].value = Amt::Null;
     run_env(ctx, &f3);
     // 2. generated environments
-    let n = ctx.scale(260, 6000);
+    let n = ctx.scale(1500, 15_000);
     for it in 0..n {
         let mut r = ctx.rng.fork();
         let m = gen_env(&mut r, &pts, it);
